@@ -12,6 +12,11 @@
 (*   C17  logged user-function calls satisfy Proportional w.r.t. the       *)
 (*        inputs at the previous stabilise in which the operator was       *)
 (*        observed (its previous run) and now; no calls while unobserved;  *)
+(*        for a chain (chain_fm_map, chain_fm_fold) the calls with role    *)
+(*        "f" are the first stage's, judged against the input maps, the    *)
+(*        others the second stage's, judged against the intermediate maps  *)
+(*        (MidDef of the input then and now: the second stage ran last     *)
+(*        when the intermediate map changed last);                         *)
 (*   C04  a recorded panic.                                                *)
 (* A failed predicate prints <<"JUDGE", line, json>>.  The trace is        *)
 (* accepted (TRACE-DONE) iff every line was consumed.                      *)
@@ -56,6 +61,14 @@ JudgeEntry(s, x) ==
       cur == Ins(s, o)
       want == OutJson(o, Def(o, cur))
       keys == IF s.ran[o] THEN AllowedKeys(s.lastIn[o], cur) ELSE AllKeys(s.lastIn[o], cur)
+      prevMid == <<MidDef(o, s.lastIn[o][1])>>
+      curMid == <<MidDef(o, cur[1])>>
+      keys2 == IF s.ran[o] THEN AllowedKeys(prevMid, curMid) ELSE AllKeys(prevMid, curMid)
+      proportional ==
+        IF o \in ChainOps
+        THEN /\ ProportionalCalls(Stage1(o), Stage1Calls(x.calls), keys, cur)
+             /\ ProportionalCalls(Stage2(o), Stage2Calls(x.calls), keys2, curMid)
+        ELSE ProportionalCalls(o, x.calls, keys, cur)
   IN IF o \notin AllOps THEN {Bad("C15", "unknown operator", x)}
      ELSE IF ~x.observed
      THEN IF x.calls # <<>> THEN {Bad("C17", "user functions called while unobserved", x)} ELSE {}
@@ -64,7 +77,7 @@ JudgeEntry(s, x) ==
      ELSE (IF x.out # want THEN {Bad("C15", "output differs from the definition", x)} ELSE {})
           \cup (IF x.out = want /\ x.down # want
                 THEN {Bad("C15", "dependant of the operator is stale (did_change not reported)", x)} ELSE {})
-          \cup (IF ~ProportionalCalls(o, x.calls, keys, cur)
+          \cup (IF ~proportional
                 THEN {Bad("C17", "calls not proportional to the change", x)} ELSE {})
 
 JudgeStabilise(s, e) ==
